@@ -91,6 +91,7 @@ func (w *World) Install() {
 	}
 	if w.Sched != nil {
 		h.Lock = w.Sched.Lock
+		h.LockObj = w.Sched.LockObj
 		h.Yield = w.Sched.Yield
 		if w.OnPoint != nil {
 			h.Yield = func(db *bolt.DB, point string) {
